@@ -137,6 +137,28 @@ CHECKS["C07"] = ("other",
     "exploration of both real runtimes with a Coq-proved comparison relation (verified-oracle exploration)",
     "DESIGN.md §6 C07, reports/C03-C07.md")
 
+CHECKS["C18"] = ("proof",
+    "Coq theorems over every existing actions file (hence every edit history) and every generator output (hence every "
+    "grammar): regen_prefix (existing items kept in place untouched, only generator items appended), regen_forced, "
+    "regen_adds_missing (exactly the missing items are appended), regen_complete, regen_idempotent, regen_no_dup_known / "
+    "_refuted (no duplicates unless the generator itself emits one name twice: recorded finding). The model regen is "
+    "compared by vm_compute with the item list the REAL Settings::process_grammar writes after every step of random edit "
+    "histories (delete any subset, rewrite bodies, add user items, reorder; forced and unforced API spellings), and the "
+    "statements are checked directly on the real files (prefix kept token-wise, second regeneration byte-identical).",
+    "machine-checked proof in Coq (regeneration algebra) + model/implementation correspondence on real edit histories",
+    "DESIGN.md §6 C18")
+CHECKS["C17"] = ("other",
+    "PROVED in Coq: cli_equals_api (for every environment and command line the Settings built by rcomp's setter chain "
+    "equal those built by the documented API calls, panics included; the CLI model CliGen.v is REGENERATED from main.rs / "
+    "settings.rs on every run and the theorems re-checked), setters_as_documented, cli_panics_iff, cli_flags_effective "
+    "(no option wired to a wrong or negated setting), hash_order_irrelevant_known / _refuted (the only hash-iteration "
+    "site, make_choices_name_unique, is order-independent outside an explicit clash class: recorded finding). NOT provable "
+    "here: process-level determinism and clap's argv parsing; decided by exploration: a source scan for new hash-iteration "
+    "sites, and for sampled (grammar, settings) the real rcomp binary and the API in three fresh processes with different "
+    "processing orders must write byte-identical files.",
+    "machine-checked proof in Coq for the CLI/API setting algebra (model regenerated from the source each run) + "
+    "byte-level exploration of rcomp vs API in fresh processes", "DESIGN.md §6 C17")
+
 PENDING_REASON = ("not yet claimed: check under construction (DESIGN.md §6 describes the planned theorem, validator and "
                   "correspondence); it is registered only once it runs end to end")
 
